@@ -1,7 +1,10 @@
 CONSTANTS NTests = 2 Deviations = {} PreChoices = {"none", "both", "sys"}
+CONSTANTS OptUniverse = {"gc", "G", "A", "coverage", "profile", "buffer", "warnings", "D", "x"}
+CONSTANTS PreDebugChoices = {{}} GChoices = {{"DEBUG_UNCOLLECTABLE"}} V4Choices = {TRUE}
 SPECIFICATION Spec
 INVARIANT Restored
 INVARIANT HooksRestored
 INVARIANT MidAsPredicted
+INVARIANT DebugAsPredicted
 PROPERTY Terminates
 CHECK_DEADLOCK FALSE
